@@ -107,7 +107,7 @@ Proof.
   intros Hx Hy Hr H. unfold k_box2 in H. apply some_inj in H. rewrite <- H. clear H. rewrite k05_eq.
   set (sx := vx size * / 2). set (sy := vy size * / 2).
   split; cbn [bb2 ev2].
-  { unfold ordered2; cbn. Show. lra. }
+  { unfold ordered2; cbn. lra. }
   intros p. match goal with |- _ \/ in_box2 ?b p => destruct (classic_in_box2 b p) as [Hin|Hout]; [now right | left];
     pose proof (boxdist2_pos b p Hout) as HF; revert HF; unfold boxdist2 end.
   cbn [b2min b2max v2neg v2muls vx vy]. ropen. fold sx sy. rewrite !axd_sym.
@@ -128,7 +128,8 @@ Proof.
   intros H. unfold k_box3, v3_lte_zero in H. kchecks H. cbn in K, K0. bfalse.
   apply some_inj in H. rewrite <- H. clear H. rewrite k05_eq.
   set (sx := wx size * / 2). set (sy := wy size * / 2). set (sz := wz size * / 2).
-  split; cbn [bb3 ev3]; [unfold ordered3; cbn; fold sx sy sz; lra|].
+  split; cbn [bb3 ev3].
+  { unfold ordered3; cbn. lra. }
   intros p. match goal with |- _ \/ in_box3 ?b p => destruct (classic_in_box3 b p) as [Hin|Hout]; [now right | left];
     pose proof (boxdist3_pos b p Hout) as HF; revert HF; unfold boxdist3 end.
   cbn [b3min b3max v3neg v3muls wx wy wz]. ropen. fold sx sy sz. rewrite !axd_sym.
